@@ -1664,6 +1664,7 @@ class Irc(IrcCommandDispatcher, log.Firewalled):
         if self.sasl_next_mechanisms:
             self.sasl_current_mechanism = self.sasl_next_mechanisms.pop(0)
             self.sasl_response_sent = False
+            self.sasl_scram_state = {'step': 'uninitialized'}
             self.sendMsg(ircmsgs.IrcMsg(command='AUTHENTICATE',
                 args=(self.sasl_current_mechanism.upper(),)))
         elif conf.supybot.networks.get(self.network).sasl.required():
